@@ -24,6 +24,12 @@ the call completes; each with credentials stored before (service and settings, d
 as first-time pairing (nothing stored).  DMAP: handle_request with fake requests for PINs
 0, 1, 7, 1234, 9999, None x {correct code, other PINs' codes, other guid, garbage, missing}.
 
+Several attempts on ONE handler object (success then a failing attempt at each reply, failure then a
+complete attempt, success twice, ...): every attempt is judged relative to what was stored when it
+started; after a failed attempt has_paired must be False even if an earlier attempt succeeded
+(key has-paired-after-failed-retry); an attempt that reports success must have recorded ITS
+credentials (retry-not-recorded).  A handler may refuse to be reused, but loudly and consistently.
+
 All key material (os.urandom, srptools' SystemRandom) is drawn from a PRNG seeded by spec['rseed']
 (default 1), so every run - and every replay - is exactly reproducible.  The runs are independent
 functions of their spec and are spread over worker processes.
@@ -973,6 +979,16 @@ class SeededRandomness:
         os.urandom, sc.random, asrp.urandom = self.saved
 
 
+def run_coro(coro, spec):
+    import logging
+    logging.disable(logging.CRITICAL)
+    try:
+        with SeededRandomness(int(spec.get("rseed", 1))):
+            return vloop.run(coro, spec)
+    finally:
+        logging.disable(logging.NOTSET)
+
+
 def run_spec(spec):
     import logging
     logging.disable(logging.CRITICAL)
@@ -1242,12 +1258,293 @@ def run_dmap(spec):
         logging.disable(logging.NOTSET)
 
 
+# ------------------------------------------------------------------------------------ several attempts on ONE handler object
+
+async def scenario_multi(spec):
+    """spec: handler, fresh, attempts = [ {index, kind, sub, garbage, pin, cancel} ... ].  All attempts
+    run begin(); pin(); finish() on the SAME handler object; every attempt has its own fault plan
+    (reply numbers count from 0 within the attempt).  A handler may refuse to be used again - then it
+    must refuse loudly and leave everything as it was."""
+    from pyatv import exceptions
+    handler = spec["handler"]
+    loop = asyncio.get_running_loop()
+    old_service, old_settings = old_credentials(handler)
+    if spec.get("fresh"):
+        old_service, old_settings = None, None
+    cur = {"plan": None, "att": None}
+    devices = []
+
+    async def create_connection(protocol_factory, host=None, port=None, **kw):
+        if cur["att"].get("kind") == "refused":
+            cur["plan"].hit = True
+            raise ConnectionRefusedError(111, "Connection refused")
+        proto = protocol_factory()
+        dev = make_device(handler, cur["plan"])
+        devices.append(dev)
+        pipe = Pipe(loop, proto, dev)
+        proto.connection_made(pipe)
+        return pipe, proto
+
+    loop.create_connection = create_connection
+    h, service, settings = build_handler(handler, loop, old_service, old_settings)
+    sattr = SETTINGS_ATTR[handler]
+    allowed = (exceptions.PairingError, exceptions.ConnectionFailedError, exceptions.ConnectionLostError,
+               exceptions.BackOffError, exceptions.NoCredentialsError)
+
+    def snap():
+        return {"service": service.credentials, "settings": getattr(settings.protocols, sattr).credentials, "has_paired": bool(h.has_paired)}
+
+    def dev_paired():
+        return any(bool(getattr(d, "paired", False) or getattr(getattr(d, "router", None), "paired", False) or getattr(d, "verified", False)) for d in devices)
+
+    obs = {"old": {"service": old_service, "settings": old_settings}, "attempts": []}
+    for att in spec["attempts"]:
+        plan = Plan(att.get("index"), att.get("kind"), att.get("sub"), bytes.fromhex(att.get("garbage", "")), hold=bool(att.get("cancel")))
+        cur["plan"], cur["att"] = plan, att
+        for d in devices:
+            d.plan = plan
+            for o in (d, getattr(d, "router", None)):
+                if o is not None and getattr(o, "paired", False) is True:
+                    o.paired = False
+            if hasattr(d, "verified"):
+                d.verified = False
+        a = {"before": snap()}
+        res_b, ex_b = await call(h.begin, plan, att.get("cancel"))
+        a["begin"] = res_b if ex_b is None else "raised:" + exc_name(ex_b)
+        a["begin_msg"] = str(ex_b)[:160] if ex_b is not None else None
+        a["after_begin"] = snap()
+        res_f, ex_f = ("skipped", None)
+        if res_b == "ok":
+            h.pin(att.get("pin", PIN))
+            res_f, ex_f = await call(h.finish, plan, att.get("cancel"))
+        a["finish"] = res_f if ex_f is None else "raised:" + exc_name(ex_f)
+        a["finish_msg"] = str(ex_f)[:160] if ex_f is not None else None
+        a["after"] = snap()
+        a["replies"] = list(plan.names)
+        a["hit"] = plan.hit
+        a["hit_name"] = plan.names[plan.index] if (plan.hit and plan.index is not None and plan.index < len(plan.names)) else None
+        a["exc_ok"] = all(ex is None or isinstance(ex, allowed) or (w == "begin" and handler.startswith(("airplay", "raop")) and isinstance(ex, OSError))
+                          for w, ex in (("begin", ex_b), ("finish", ex_f)))
+        a["device_paired"] = dev_paired()
+        a["new_credentials_valid"] = None
+        if a["after"]["service"] != a["before"]["service"] and a["after"]["service"]:
+            a["new_credentials_valid"] = check_new_credentials(handler, a["after"]["service"])
+        obs["attempts"].append(a)
+    try:
+        await h.close()
+    except Exception as ex:  # noqa
+        obs["close"] = "raised:" + exc_name(ex)
+    return obs
+
+
+def judge_multi(spec, obs):
+    """Every attempt is judged like a single one, relative to what was stored when it started; in
+    addition, after an attempt that failed has_paired must be False even if an EARLIER attempt on
+    the same object succeeded ('... raises, previously stored credentials are left untouched and
+    has_paired stays false'), and an attempt that reports success must have recorded ITS credentials."""
+    handler = spec["handler"]
+    hk = "raop" if handler == "raop_hap" else handler
+    out = []
+    earlier_success = False
+    seq = "+".join((a.get("kind") or ("cancel" if a.get("cancel") else "ok")) for a in spec["attempts"])
+    for k, (att, a) in enumerate(zip(spec["attempts"], obs["attempts"])):
+        where = "%s attempt %d of [%s] (%s%s at %s)" % (handler, k + 1, seq, att.get("kind") or ("cancel" if att.get("cancel") else "fault-free"),
+                                                       ("/" + str(att["sub"])) if att.get("sub") else "", a.get("hit_name") or "-")
+        before, after = a["before"], a["after"]
+        failed = a["begin"].startswith("raised") or a["finish"].startswith("raised") or "cancelled" in (a["begin"], a["finish"])
+        wrote = after["service"] != before["service"] or after["settings"] != before["settings"]
+        ab = a["after_begin"]
+        if ab["service"] != before["service"] or ab["settings"] != before["settings"]:
+            out.append(("C08:%s:credentials-written-on-failure" % hk, "%s: begin() alone changed the stored credentials" % where))
+        if failed:
+            if wrote:
+                key = "credentials-written-on-cancel" if "cancelled" in (a["begin"], a["finish"]) else "credentials-written-on-failure"
+                out.append(("C08:%s:%s" % (hk, key), "%s: begin=%s finish=%s but credentials changed: %s -> %s" % (where, a["begin"], a["finish"], before, after)))
+            if after["has_paired"]:
+                if earlier_success:
+                    out.append(("C08:%s:has-paired-after-failed-retry" % hk,
+                                "%s: begin=%s (%s) finish=%s (%s) but has_paired is still True from the earlier successful attempt" % (where, a["begin"], a["begin_msg"], a["finish"], a["finish_msg"])))
+                else:
+                    out.append(("C08:%s:has-paired-on-failure" % hk, "%s: begin=%s finish=%s but has_paired is True" % (where, a["begin"], a["finish"])))
+            if not a["exc_ok"]:
+                out.append(("C08:%s:wrong-exception" % hk, "%s: begin=%s finish=%s is neither a pairing nor a connection error" % (where, a["begin"], a["finish"])))
+        else:
+            faulted = exchange_failed(dict(att, handler=handler), {"hit": a["hit"], "hit_name": a["hit_name"]})
+            if faulted:
+                out.append(("C08:%s:credentials-written-on-failure:%s:%s" % (hk, a.get("hit_name") or "pin", att["kind"]),
+                            "%s: the exchange failed but finish() returned normally" % where))
+            else:
+                ok = (after["has_paired"] and after["service"] and after["service"] == after["settings"] and after["service"] != before["service"]
+                      and after["settings"] != before["settings"] and a["new_credentials_valid"] is not False and a["device_paired"])
+                if not ok:
+                    key = "retry-not-recorded" if k > 0 else "success-not-recorded"
+                    out.append(("C08:%s:%s" % (hk, key), "%s: begin()/finish() returned normally but this attempt's credentials were not recorded: before=%s after=%s device_completed=%s"
+                                % (where, before, after, a["device_paired"])))
+                earlier_success = True
+    return out
+
+
+def multi_specs(handler, names, rng, thorough):
+    """Sequences of attempts on one handler object; names = replies of the fault-free run."""
+    http = handler.startswith(("airplay", "raop"))
+    fails = [{"kind": "refused"}, {"kind": "wrong_pin", "pin": 1112}]
+    for i in range(len(names)):
+        fails += [{"index": i, "kind": "drop", "sub": None}, {"index": i, "kind": "disconnect", "sub": "clean"}, {"index": i, "cancel": True}]
+        fails.append({"index": i, "kind": "error", "sub": "http470"} if (http and (handler in ("airplay_legacy", "raop") or names[i] == "pin-start")) else {"index": i, "kind": "error", "sub": "2"})
+    fails = [f for f in fails if not (f.get("kind") == "error" and f.get("sub") == "2" and names[f["index"]] in ("device-info", "pin-start"))]
+    seqs = [[{}, {}], [{}, {}, {}]]
+    seqs += [[{}, f] for f in fails]                    # success, then a failing attempt
+    seqs += [[f, {}] for f in fails]                    # failure, then a complete attempt
+    seqs += [[{}, f, {}] for f in fails[:: (1 if thorough else 3)]]
+    seqs += [[f, g] for f in fails[::4] for g in fails[1::5]]
+    out = []
+    for seq in seqs:
+        out.append({"handler": handler, "attempts": [dict(a) for a in seq]})
+        if thorough or handler == "companion":
+            out.append({"handler": handler, "fresh": True, "attempts": [dict(a) for a in seq]})
+    return out
+
+
+async def scenario_dmap_multi(spec):
+    """DMAP, one handler object: rounds = [ [codes...] ... ]; every round is begin() (server and mDNS
+    faked); the pairing requests of that round; finish()."""
+    from pyatv import conf
+    from pyatv.const import Protocol
+    from pyatv.core import Core, MutableService, ProtocolStateDispatcher, CoreStateDispatcher
+    from pyatv.settings import Settings
+    from pyatv.support.state_producer import StateProducer
+    from pyatv.protocols.dmap import pairing as dp
+    from pyatv.protocols import dmap
+
+    class SessionManager:
+        async def close(self):
+            pass
+
+    class Zc:
+        def close(self):
+            pass
+
+    class Site:
+        def __init__(self, *a, **k):
+            pass
+
+        async def start(self):
+            pass
+
+    async def publish(loop_, svc, zc):
+        pass
+
+    loop = asyncio.get_running_loop()
+    old_service, old_settings = old_credentials("dmap")
+    service = MutableService("fake-id", Protocol.DMAP, 3689, {}, credentials=old_service)
+    settings = Settings()
+    settings.protocols.dmap.credentials = old_settings
+    core = Core(loop, conf.AppleTV("10.0.0.2", "Fake"), service, settings, StateProducer(), SessionManager(), lambda *a: (lambda: None),
+                ProtocolStateDispatcher(Protocol.DMAP, CoreStateDispatcher()))
+    guid = "0x0123456789ABCDEF"
+    h = dmap.pair(core, zeroconf=Zc(), addresses=["10.0.0.1"], pairing_guid=guid, name="verif")
+    pin = spec.get("pin")
+    if pin is not None:
+        h.pin(pin)
+
+    def snap():
+        return {"service": service.credentials, "settings": settings.protocols.dmap.credentials, "has_paired": bool(h.has_paired)}
+
+    obs = {"rounds": [], "expected_credentials": "0x" + guid[2:]}
+    saved = (dp.web.TCPSite, dp.mdns.publish)
+    dp.web.TCPSite, dp.mdns.publish = Site, publish
+    try:
+        for codes in spec["rounds"]:
+            r = {"before": snap(), "status": []}
+            try:
+                await h.begin()
+                r["begin"] = "ok"
+            except Exception as ex:  # noqa
+                r["begin"] = "raised:" + exc_name(ex)
+            r["after_begin"] = snap()
+            for code in codes:
+                query = {"servicename": "remote"}
+                if code == "correct":
+                    query["pairingcode"] = dmap_code(guid[2:], pin if pin is not None else 0)
+                elif code.startswith("other:"):
+                    query["pairingcode"] = dmap_code(guid[2:], int(code[6:]))
+                else:
+                    query["pairingcode"] = code
+
+                class Url:
+                    pass
+
+                class Request:
+                    rel_url = Url()
+                Request.rel_url.query = query
+                try:
+                    resp = await h.handle_request(Request())
+                    r["status"].append(resp.status)
+                except Exception as ex:  # noqa
+                    r["status"].append("raised:" + exc_name(ex))
+            try:
+                await h.finish()
+                r["finish"] = "ok"
+            except Exception as ex:  # noqa
+                r["finish"] = "raised:" + exc_name(ex)
+            r["after"] = snap()
+            obs["rounds"].append(r)
+    finally:
+        dp.web.TCPSite, dp.mdns.publish = saved
+    try:
+        await h.close()
+    except Exception:  # noqa
+        pass
+    return obs
+
+
+def judge_dmap_multi(spec, obs):
+    out = []
+    earlier = False
+    for k, (codes, r) in enumerate(zip(spec["rounds"], obs["rounds"])):
+        accepted = any(c == "correct" for c in codes) or (spec.get("pin") is None and codes)
+        desc = "dmap round %d of %s (PIN %r, codes %s): begin=%s statuses=%s" % (k + 1, spec["rounds"], spec.get("pin"), codes, r["begin"], r["status"])
+        if r["begin"] != "ok":
+            # the handler refuses to be started again: then nothing may have changed and has_paired must not claim success
+            if r["after"]["service"] != r["before"]["service"] or r["after"]["settings"] != r["before"]["settings"]:
+                out.append(("C08:dmap:credentials-written-on-failure", desc + ": begin() raised but credentials changed"))
+            if r["after"]["has_paired"]:
+                out.append(("C08:dmap:has-paired-after-failed-retry" if earlier else "C08:dmap:has-paired-on-failure", desc + ": begin() raised but has_paired is True"))
+            continue
+        if accepted:
+            if not (r["after"]["has_paired"] and r["after"]["service"] == obs["expected_credentials"] == r["after"]["settings"]):
+                out.append(("C08:dmap:retry-not-recorded" if k > 0 else "C08:dmap:success-not-recorded", desc + ": not recorded: %s" % r["after"]))
+            earlier = True
+        else:
+            if r["after"]["service"] != r["before"]["service"] or r["after"]["settings"] != r["before"]["settings"]:
+                out.append(("C08:dmap:wrong-pin-accepted", desc + ": no request of this round carried the right code but credentials changed %s -> %s" % (r["before"], r["after"])))
+            if r["after"]["has_paired"]:
+                out.append(("C08:dmap:has-paired-after-failed-retry" if earlier else "C08:dmap:wrong-pin-accepted",
+                            desc + ": no request of this round carried the right code but has_paired is True"))
+    return out
+
+
+def dmap_multi_specs():
+    out = []
+    for pin in (0, 1234):
+        for rounds in ([["correct"], ["other:1"]], [["other:1"], ["correct"]], [["correct"], ["correct"]], [["other:1", "correct"]], [["correct", "other:1"]],
+                       [["other:1"], ["zz"]], [["correct"], []], [[], ["correct"]]):
+            out.append({"handler": "dmap", "pin": pin, "rounds": rounds})
+    return out
+
+
 # ------------------------------------------------------------------------------------ entry points
 
 def evaluate(spec):
     """-> (observation, [(key, what)]).  spec['tag'] (corpus witnesses of recorded findings) is
     appended to the keys so that such a finding has a key of its own."""
-    if spec["handler"] == "dmap":
+    if "rounds" in spec:
+        obs = run_coro(scenario_dmap_multi, spec)
+        verdicts = judge_dmap_multi(spec, obs)
+    elif "attempts" in spec:
+        obs = run_coro(scenario_multi, spec)
+        verdicts = judge_multi(spec, obs)
+    elif spec["handler"] == "dmap":
         obs = run_dmap(spec)
         verdicts = judge_dmap(spec, obs)
     else:
@@ -1263,6 +1560,10 @@ def canon(spec):
 
 
 def brief(obs):
+    if "attempts" in obs:
+        return {"attempts": [{k: a[k] for k in ("begin", "begin_msg", "finish", "finish_msg", "hit_name", "before", "after")} for a in obs["attempts"]]}
+    if "rounds" in obs:
+        return obs
     keys = ("begin", "finish", "begin_msg", "finish_msg", "hit_name", "before", "after", "status", "after_request", "replies")
     return {k: obs[k] for k in keys if k in obs}
 
@@ -1304,6 +1605,15 @@ def run_part(ctx):
         obs, verdicts = res
         n_runs += 1
         h = spec["handler"]
+        if "attempts" in spec or "rounds" in spec:
+            ctx.count("%s:several-attempts" % h)
+            if (h, "multi") not in sampled:
+                sampled.add((h, "multi"))
+                samples.append({"spec": spec, "observed": brief(obs)})
+            ctx.case(canon(spec), nontrivial=True, sample=None)
+            for key, what in verdicts:
+                ctx.violation(key, what, dict(spec, observed=brief(obs), corpus_file=from_corpus))
+            return obs
         kind = spec.get("kind") or spec.get("misuse") or ("cancel" if (spec.get("cancel") or "cancel_after" in spec) else ("code" if h == "dmap" else "fault-free"))
         ctx.count("%s:%s" % (h, kind))
         hit = obs.get("hit", True) or kind in ("fault-free", "wrong_pin", "no_pin", "no_begin", "code") or "cancel_after" in spec
@@ -1340,11 +1650,13 @@ def run_part(ctx):
         bases = many([{"handler": h} for h in handlers] + [{"handler": h, "fresh": True} for h in handlers])
         specs = []
         sweeps = []
+        multi = []
         for n, h in enumerate(handlers):
             base, fresh = bases[n], bases[n + len(handlers)]
             if base is not None and base["begin"] == "ok" and base["finish"] == "ok":
                 specs += matrix(h, base["replies"], ctx.rng, ctx.thorough)
                 sweeps += [(h, phase, {}) for phase in ("begin", "finish")]
+                multi += multi_specs(h, base["replies"], ctx.rng, ctx.thorough)
             # first-time pairing (nothing stored before): Companion then skips its connect-time
             # pair-verify, so it gets the full matrix; the others a light one in the quick tier
             if fresh is not None and fresh["begin"] == "ok" and fresh["finish"] == "ok":
@@ -1362,6 +1674,8 @@ def run_part(ctx):
                 sp["rseed"] = ctx.rng.randrange(2, 10 ** 6)
         specs += dmap_specs(ctx.rng, ctx.thorough)
         many(specs)
+        # several attempts on ONE handler object (success then failure, failure then success, ...)
+        many(multi + dmap_multi_specs())
         # 3. cancellation at EVERY scheduling point of begin() and of finish(), not only while a reply
         #    is awaited: cancel after k turns of the event loop, k = 0 .. until the call completes
         k0, width = 0, 16
